@@ -1012,6 +1012,10 @@ package server
 //@     assert [C06,C01:partial-is-decoded-from-the-last-candidate-of-its-dataset] arrOf(data) == valG && accG >= 0 && k32at10(K(txnG, accG)) == previousDatasetID
 //@     assert [C01:one-partial-per-dataset] !has(emittedG, previousDatasetID)
 //@     ghost emittedG := add(emittedG, previousDatasetID)
+//@   at call mergePartials#1 before
+//@     assert [C06,C01:scan-stops-only-when-the-versions-of-the-entity-are-exhausted] !(0 <= $itPos[entityLocatorIterator] && $itPos[entityLocatorIterator] < N(txnG) && kcl(K(txnG, $itPos[entityLocatorIterator])) == 1 && k64at2(K(txnG, $itPos[entityLocatorIterator])) == internalID)
+//@   at call len#3 before
+//@     assert [C06,C01:scan-stops-only-when-the-versions-of-the-entity-are-exhausted] !(0 <= $itPos[entityLocatorIterator] && $itPos[entityLocatorIterator] < N(txnG) && kcl(K(txnG, $itPos[entityLocatorIterator])) == 1 && k64at2(K(txnG, $itPos[entityLocatorIterator])) == internalID)
 //@   at call Unmarshal#2 before
 //@     assert [C06,C01:last-partial-is-decoded-from-the-last-candidate] arrOf(data) == valG && accG >= 0 && k32at10(K(txnG, accG)) == previousDatasetID
 //@     assert [C01:one-partial-per-dataset] !has(emittedG, previousDatasetID)
@@ -1069,6 +1073,7 @@ package server
 //@ unit (*Dataset).CompleteFullSync$2
 //@   prop C09
 //@   ghost flushedG bool = false
+//@   ghost inFlushedG bool = false
 //@   requires e != nil && ds != nil && ds.store != nil && !has($held, addrOf(ds.WriteLock))
 //@   requires [callers-hold-no-lock-at-or-above-dataset-level] forall l int :: has($held, l) ==> lockLevel(l) < 2
 //@   requires forall i int :: 0 <= i && i < len(deleteBatch) ==> deleteBatch[i] != nil
@@ -1076,7 +1081,11 @@ package server
 //@   ensures [seen-entities-are-left-alone] result == nil && old(has(ds.fullSyncSeen, e.InternalID)) ==> e.IsDeleted == old(e.IsDeleted)
 //@   ensures [unseen-live-entities-are-tombstoned] result == nil && !old(e.IsDeleted) && !old(has(ds.fullSyncSeen, e.InternalID)) ==> e.IsDeleted
 //@   ensures [tombstone-is-queued-or-written] result == nil && !old(e.IsDeleted) && !old(has(ds.fullSyncSeen, e.InternalID)) && !flushedG ==> len(deleteBatch) == old(len(deleteBatch)) + 1 && deleteBatch[len(deleteBatch) - 1] == e
+//@   ensures [tombstone-of-this-entity-is-part-of-the-batch-flushed-by-this-call] result == nil && !old(e.IsDeleted) && !old(has(ds.fullSyncSeen, e.InternalID)) && flushedG ==> inFlushedG
+//@   ensures [a-flushed-batch-is-not-kept] result == nil && flushedG ==> len(deleteBatch) == 0
 //@   ensures [nothing-else-is-queued] result == nil && (old(e.IsDeleted) || old(has(ds.fullSyncSeen, e.InternalID))) && !flushedG ==> deleteBatch == old(deleteBatch)
+//@   at call StoreEntities#1 before
+//@     ghost inFlushedG := len($arg1) > 0 && $arg1[len($arg1) - 1] == e
 //@   at call StoreEntities#1
 //@     ghost flushedG := true
 
